@@ -49,7 +49,7 @@ def model_chunks(fin, recs):
             ss = "%d.%d.%d.%d" % r["post"]
         out.append(":".join([kind[i], txt, str(rcol[i]), str(c["column_indent"]), str(c["nl_count"]), str(c["nl_column"]), str(c["orig_col"]),
                              str(c["orig_prev_sp"]), b(pre), b(fl & dumps.PCF_WAS_ALIGNED), b(c["after_tab"]),
-                             b(t in ("BRACE_CLOSE", "CASE_COLON")), b(t == "PP_DEFINE"), b(t == "STRING"), b(t == "STRING_MULTI"), b(t == "PP_IGNORE"),
+                             b(t in ("BRACE_CLOSE", "CASE_COLON")), b(t == "PP_DEFINE"), b(t in ("STRING", "STRING_MULTI")), b(t == "STRING_MULTI"), b(t == "PP_IGNORE"),
                              b(t in ("COMMENT", "COMMENT_CPP", "COMMENT_MULTI")), sg, ss]))
     return out
 
